@@ -97,6 +97,8 @@ def run(tier, seed):
     plans.append((['L1', 'L2', 'LL', '!LL2', 'B1', 'B1c', 'xc1', 'x1',
                    'xnone', '!zero', '!zeroterm', 'Q1', 'qnone', 'S12',
                    'x1^12', '?query'], 5 if tier == 'thorough' else 4, [ROOTS[0]]))
+    plans.append((['xnone', 'xnone/y0', 'x1/y1', '!dupsym', '?query'], 4,
+                  [ROOTS[2]]))
     for names, depth, roots in plans:
         for root in roots:
             n, nfp = explore(names, depth, total, root=root)
